@@ -18,7 +18,7 @@ import (
 
 type waiter struct {
 	Key string
-	Ver string // current | stale | never
+	Ver string // current | stale | never | getwait (read the current version first, then wait on it: a late waiter)
 }
 
 type mop struct {
@@ -105,6 +105,7 @@ func job(sc scen, cfg vsched.Config) sdrv.Job {
 			return nil
 		}
 		returned := make([]string, len(sc.waiters))
+		lateVer := make([]string, len(sc.waiters))
 		cancels := make([]context.CancelFunc, len(sc.waiters))
 		cancelled := make([]bool, len(sc.waiters))
 		for i, w := range sc.waiters {
@@ -121,6 +122,16 @@ func job(sc scen, cfg vsched.Config) sdrv.Job {
 				})
 			}
 			vsched.GoNamed(fmt.Sprintf("wait%d", i), func() {
+				if w.Ver == "getwait" {
+					gi := h.Begin(kvh.HOp{Thread: i, Kind: "get", Key: w.Key})
+					r, err := st.Get(ctx, w.Key)
+					h.End(gi, string(r.Value), r.Version, kvh.ErrClass(err))
+					ver = r.Version
+					if err != nil {
+						ver = "01HZZZZZZZZZZZZZZZZZZZZZZG"
+					}
+					lateVer[i] = ver
+				}
 				hi := h.Begin(kvh.HOp{Thread: i, Kind: "wait", Key: w.Key, ExpVer: ver, Waiter: i})
 				err := st.WaitForVersionChange(wctx, w.Key, ver)
 				h.End(hi, "", "", kvh.ErrClass(err))
@@ -210,6 +221,10 @@ func job(sc scen, cfg vsched.Config) sdrv.Job {
 			switch {
 			case err != nil:
 				reason = "the key is absent"
+			case w.Ver == "getwait":
+				if r.Version != lateVer[i] {
+					reason = "the key's version changed after the waiter read it"
+				}
 			case w.Ver != "current":
 				reason = "the key exists with a version different from the given one"
 			case cancelled[i]:
@@ -329,12 +344,16 @@ func main() {
 		add("inmem", []waiter{{"a", v}}, seqs(onA, 3), []int{0, 1}, P)
 	}
 	// two waiters
-	for _, k2 := range []string{"a", "b"} {
-		for _, v1 := range vers[:2] {
-			for _, v2 := range vers[:2] {
-				add("inmem", []waiter{{"a", v1}, {k2, v2}}, seqs(onAB, mlen), []int{0, 1, 3}, P)
-			}
-		}
+	pairs := [][]waiter{
+		{{"a", "current"}, {"a", "current"}}, {{"a", "current"}, {"a", "getwait"}}, {{"a", "current"}, {"a", "stale"}},
+		{{"a", "stale"}, {"a", "getwait"}}, {{"a", "getwait"}, {"a", "getwait"}},
+	}
+	for _, ws := range pairs {
+		add("inmem", ws, seqs(onA, mlen), []int{0, 1, 3}, P)
+	}
+	add("inmem", []waiter{{"a", "current"}, {"b", "current"}}, seqs(onAB, mlen), []int{0, 1, 3}, P)
+	if run.Thorough() {
+		add("inmem", []waiter{{"a", "getwait"}, {"b", "getwait"}}, seqs(onAB, 2), []int{0, 1, 3}, P)
 	}
 	// three waiters
 	three := [][]waiter{{{"a", "current"}, {"a", "current"}, {"a", "current"}}, {{"a", "current"}, {"a", "current"}, {"b", "current"}}, {{"a", "current"}, {"a", "stale"}, {"a", "current"}}}
